@@ -4,7 +4,11 @@ CONFIG = {
     "lean_modules": ["SA.Props.C06"],
     "level_text": "Theorems over an executable byte-level model of the handshake (chunked transport reader, textproto line / "
                   "MIME-header reading, both line parsers with Go's slicing explicit, SplitField, version negotiation, the "
-                  "server's and client's decision trees): C06_admits_only_wellformed, C06_session_only_after_101, "
+                  "server's and client's decision trees): C06_admits_only_wellformed, C06_admits_every_wellformed (+ _rendered, "
+                  "C06_client_admits_every_wellformed: every announce+upgrade byte stream in the wire format 'line CRLF "
+                  "(name:raw CRLF)* CRLF' with decidably well-formed header lines and compatible significant headers is "
+                  "admitted under every segmentation, proved by induction over the header lists), C06_admits_exactly (iff at "
+                  "the reader level), C06_renderer_matches_client, C06_session_only_after_101, "
                   "C06_else_refused, C06_segmentation_independent (+ _client; induction over the chunk list through every "
                   "reader primitive), C06_no_panic_server / _client (all eight slice expressions in range for every line), "
                   "C06_panic_site_inventory (regenerated inventory of index/slice/assert/panic sites equals the modelled one). "
@@ -14,8 +18,11 @@ CONFIG = {
     "level_note": "Proved for the model; the model-to-code tie is differential (sampled, generators enumerate every branch "
                   "and boundary). bufio and net/textproto are modelled from their source/observed behaviour (buffer capacity "
                   "abstracted: over-long lines are re-joined by textproto, checked on lines straddling 4096/8192 and up to "
-                  "1 MiB). 'Well-formed' is net/textproto's notion (ReadsRequest), anchored by the proved shape of the request "
-                  "line. TLS is a parameter. There is no cap on a header line: memory grows linearly with the line "
+                  "1 MiB). 'Well-formed' in the only-if / iff theorems is net/textproto's notion (ReadsRequest), anchored by "
+                  "the proved shape of the request line; the byte-level completeness theorems cover unfolded CRLF-terminated "
+                  "header lines (name: token bytes or spaces, not starting with a space; value: validHeaderValueByte), not "
+                  "folded lines, bare-LF endings or an EOF-terminated last line. TLS is a parameter (StartTLS completeness "
+                  "is under the hypothesis that it succeeds; without StartTLS no hypothesis). There is no cap on a header line: memory grows linearly with the line "
                   "(measured, see notes/C06.md); not a crash within the harness limit, reported not flagged. The client "
                   "accepts any Protocol-Version the server names (no client-side compatibility check): outside the "
                   "statement, noted.",
